@@ -129,9 +129,9 @@ CLAIMS = {
  "C13": dict(
   text="Theorems about the model of the HDF5 codec: decode(encode leaf) = leaf iff the leaf is not a sentinel string; dotted keys split back into their segments; flattening enumerates root-to-leaf paths with distinct dataset names; "
        "for every well-formed nested dictionary load(save d) = d exactly, and for ANY order in which the datasets are listed the result is equal up to the order of entries at every depth (codec_roundtrip_perm); "
-       "an Aspire configuration (bounds, periodic parameters, flow options, namespace, precision) is rebuilt exactly through the file (config_roundtrip). Negative witnesses for dotted keys and sentinel strings. "
+       "an Aspire configuration (bounds, periodic parameters, flow options, namespace, precision) is rebuilt exactly through the file (config_roundtrip). Negative witnesses for dotted keys and sentinel strings. A sample record (parameter names, one column per parameter, optional log-likelihood/prior/proposal/weight fields) saved in the nested layout reloads to the same record for ANY order in which the file lists the per-parameter datasets, because columns are looked up by name (samples_nested_roundtrip_file, colsByName_any_listing_order); the by-order lookup is proved to swap columns (colsByOrder_swaps_witness); the driver op samplecols replays the file's real listing order of every nested save through colsByName. "
        "The real save/load of dictionaries, sample sets (3 classes x 3 namespaces x 2 widths x field subsets x layouts x name orders), histories, every transform class, zuko/flowjax flows with custom options and resume_from_file are exercised on every run.",
-  note=TB + "h5py is modelled as a key->dataset map listed in any order; per-class record<->tree maps of samples/histories/transforms/flows are covered by the observational correspondence, not by separate theorems; "
+  note=TB + "h5py is modelled as a key->dataset map listed in any order; the record<->tree map of sample sets is modelled and proved (C13Samples), those of histories/transforms/flows are covered by the observational correspondence, not by separate theorems; "
        "h5py's conversion of number lists into arrays is identified observationally (list vs array of equal values).",
   technique="Lean 4 proof (structural induction over value trees, permutation-invariant reload) + differential correspondence through real HDF5 files + observational round-trip oracle"),
  "C14": dict(
